@@ -445,6 +445,76 @@ def gen_mid_op(rng, a, op, zero, base):
         ",".join("%d:%d" % t for t in srange), csv(mdims), ",".join("%d:%d" % t for t in mrange), base)
 
 
+# ---- exhaustive small scopes
+def exhaustive_lo(dims_list):
+    """every start:end:stride of small arrays (rank 1: invalid ones included), read into a contiguous 1-D buffer;
+    every 4th selection is also written from a reshaped 2-D buffer"""
+    scripts = []
+    for k, dims in enumerate(dims_list):
+        name = "X%d" % k
+        lines = ["node %s i4 %s %d" % (name, csv(dims), 100)]
+        per = []
+        for d in dims:
+            if len(dims) == 1:
+                opts = [(a, b, st) for a in range(0, d + 2) for b in range(a - 1, d + 2) for st in range(0, d + 2)]
+            else:
+                opts = [(a, b, st) for a in range(1, d + 1) for b in range(a, d + 1) for st in range(1, d + 1)]
+            per.append(opts)
+        combos = [[]]
+        for opts in per:
+            combos = [c + [o] for c in combos for o in opts]
+        for j, sel in enumerate(combos):
+            n = prod([max((b - a) // st + 1, 1) if st >= 1 else 1 for a, b, st in sel])
+            lines.append("r %s s=%s m=%d;1:%d:1 %d" % (name, fmt_sel(sel), n, n, 5000 + j))
+            if j % 4 == 0:
+                f = 2 if n % 2 == 0 else 1
+                lines.append("w %s s=%s m=%d,%d;2:%d:1,1:%d:1 %d" % (name, fmt_sel(sel), n // f + 1, f + 1, n // f + 1, f, 20000 + 10 * j))
+        scripts.append(lines)
+    return scripts
+
+
+def exhaustive_mid(rinds):
+    """idim = 2, 3 x 2 vertices, every rind combination given, both conventions, every range with end points from
+    one below the lower limit to one above the upper limit (start > end included), through the general and the
+    plain read, every 5th also through the general / partial write"""
+    scripts = []
+    n = [3, 2]
+    for rind in rinds:
+        sd = field_dims(n, "v", rind)
+        rlo = [rind[0], rind[2]]
+        head = "coord CoordinateX"
+        common = "t=r8 sdims=%s rlo=%s" % (csv(sd), csv(rlo))
+        lines = ["zone 2 3,2", "grid %s" % csv(rind),
+                 "w %s full %s s=%s m=%s;%s 100" % (head, common, ",".join("%d:%d" % (1 - l, d - l) for d, l in zip(sd, rlo)),
+                                                    csv(sd), ",".join("1:%d" % d for d in sd)),
+                 "reopen"]
+        j = 0
+        for cfg in ("core", "zero"):
+            lines.append("cfg " + cfg)
+            lo = [1 if cfg == "zero" else 1 - l for l in rlo]
+            hi = [d if cfg == "zero" else d - l for d, l in zip(sd, rlo)]
+            r0 = [(a, b) for a in range(lo[0] - 1, hi[0] + 2) for b in range(a - 1, hi[0] + 2)]
+            r1 = [(a, b) for a in range(lo[1] - 1, hi[1] + 2) for b in range(a - 1, hi[1] + 2)]
+            for x in r0:
+                for y in r1:
+                    j += 1
+                    ext = [x[1] - x[0] + 1, y[1] - y[0] + 1]
+                    npt = prod([max(e, 1) for e in ext])
+                    srg = "%d:%d,%d:%d" % (x[0], x[1], y[0], y[1])
+                    if j % 2:
+                        lines.append("r %s general %s s=%s m=%d;2:%d %d" % (head, common, srg, npt + 2, npt + 1, 1000 + j))
+                    else:
+                        lines.append("r %s plain %s s=%s m=%d,%d;1:%d,1:%d %d" % (head, common, srg, ext[0], ext[1], ext[0], ext[1], 1000 + j))
+                    if j % 5 == 0:
+                        if j % 10:
+                            lines.append("w %s general %s s=%s m=%d;1:%d %d" % (head, common, srg, npt, npt, 100 * j))
+                        else:
+                            lines.append("w %s partial %s s=%s m=%d,%d;1:%d,1:%d %d" % (head, common, srg, ext[0], ext[1], ext[0], ext[1], 100 * j))
+        lines.append("cfg core")
+        scripts.append(lines)
+    return scripts
+
+
 # ------------------------------------------------------------------ oracle evaluation of a run
 def mem_line(vals):
     return "M %s|%s|%s" % (csv(PRE), csv(vals), csv(POST))
@@ -696,9 +766,24 @@ def run(ck):
                 if ok and not run_level(ck, level, lo if level == "lo" else mid, backend, lines, "corpus", state):
                     ok = False
 
+    # ---- exhaustive small scopes (quick: a few; thorough: rank <= 3 and every rind combination of a 2-D zone)
+    import itertools
+    xlo = exhaustive_lo([[1], [2], [5], [3, 2]] if not big else [[1], [2], [3], [5], [6], [3, 2], [4, 3], [3, 2, 2]])
+    xmid = exhaustive_mid([[1, 0, 0, 1]] if not big else [list(r) for r in itertools.product([0, 1], repeat=4)] + [[2, 1, 0, 2]])
+    for k, sc in enumerate(xlo):
+        for backend in ("adf", "hdf5"):
+            if ok and not run_level(ck, "lo", lo, backend, sc, "x%d" % k, state):
+                ok = False
+    for k, sc in enumerate(xmid):
+        for backend in ("adf", "hdf5"):
+            if ok and not run_level(ck, "mid", mid, backend, sc, "xm%d" % k, state):
+                ok = False
+    ck.extra["exhaustive_scopes"] = {"lo_scripts": len(xlo), "lo_ops": sum(len(x) - 1 for x in xlo),
+                                     "mid_scripts": len(xmid), "mid_ops": sum(len(x) for x in xmid)}
+
     # ---- seeded generation
-    n_lo_batches, lo_per = (24, 120) if big else (3, 110)
-    n_mid = 90 if big else 11
+    n_lo_batches, lo_per = (60, 120) if big else (3, 110)
+    n_mid = 240 if big else 11
     idx = 0
     for b in range(n_lo_batches):
         if not ok:
